@@ -99,7 +99,20 @@ func gGuard(c *Ctx, rule string) {
 		emitted := map[string][]ast.Node{}
 		ast.Inspect(gf.Decl.Body, func(n ast.Node) bool {
 			call, ok := n.(*ast.CallExpr)
-			if !ok || g.emitterKind(call) == "" {
+			if !ok {
+				return true
+			}
+			if g.emitterKind(call) == "" {
+				// a "write this expression" wrapper of the generator, given X.Expression
+				if fn := calleeOf(info, call); fn != nil {
+					if cg := g.funcs[fn]; cg != nil && g.parametric(cg) && cg.exprParametric {
+						for _, a := range call.Args {
+							if inner, ok := ast.Unparen(a).(*ast.SelectorExpr); ok && inner.Sel.Name == "Expression" {
+								emitted[types.ExprString(inner.X)] = append(emitted[types.ExprString(inner.X)], call)
+							}
+						}
+					}
+				}
 				return true
 			}
 			for _, a := range call.Args {
